@@ -1,4 +1,15 @@
 from . import has_class
-CFG = {"harness": ["v1", "v2"], "functional": ["C02.raw"],
-       "required_classes": ["raw", "with-tracker", "without-tracker", "output-is-program-package", "local-type", "retypecheck"],
-       "rule": "wip", "manifest": {"text": "wip", "note": "wip"}}
+
+CFG = {
+    "harness": ["v1", "v2"],
+    "functional": ["C02.raw"],
+    "required_classes": ["raw", "with-tracker", "without-tracker", "output-is-program-package", "local-type", "retypecheck"],
+    "rule": "types taken from the universes of generated programs (parsed by the real loaders), restricted to C02's fragment; for each of 4 rounds per program: an output package (fresh, the last program package, packages named like a version or a keyword), with or without an import tracker, 1-6 types named through ONE raw namer; compared with the model (names and final import lines); oracle: the rendered text is written into a file of the output package together with the tracker's import lines (or base-name imports), parsed and type-checked with go/types against the program, every variable's type must be identical to the original and every import must be needed; non-trivial = input longer than 12 characters",
+    "exhaustive": [],
+    "modelled": 'rawNamer.Name with DefaultImportTracker (the tracker model of C07); the lexing/parsing of the rendered text back into a type is go/parser + go/types in the oracle, not modelled',
+    "assumptions": ["the tracker's local package is the namer's output package", "without a tracker: path bases are distinct legal identifiers"],
+    "manifest": {
+        "text": 'Coq theorems: rendering is compositional in the tracker (local types unqualified, foreign types qualified with the alias the tracker holds for their package after naming, composites structural), every foreign named type occurring in a rendered type is tracked afterwards, the output package is never tracked (C07 invariant), naming only ever extends the tracker; tied to /repo each run: the real raw namer + tracker vs the extracted model, and the rendered text re-type-checked by go/types to a type identical to the original',
+        "note": 'partial: that the rendered text denotes the original type is decided by re-type-checking with go/types on every run (a parser of Go type syntax is not modelled); trusted: Coq kernel, extraction, OCaml driver, Go harness',
+    },
+}
